@@ -19,11 +19,11 @@ def prebuild():
 
 # ------------------------------------------------------------------------------------------------ generator
 class Gen:
-    def __init__(self, rng, tr, req_max):
+    def __init__(self, rng, tr, req_max, enforced=0):
         self.rng = rng
         self.tr = tr
-        self.mx = max(req_max, CONNRESP)
-        self.ops = ["open %s %d" % (tr, req_max)]
+        self.mx = max(req_max, CONNRESP, enforced)
+        self.ops = ["open %s %d" % (tr, req_max) + (" %d" % enforced if enforced > 0 else "")]
         self.tag = 0
         self.n = {"req": 0, "resp": 0, "evt": 0}
 
@@ -92,7 +92,11 @@ class Gen:
 
 
 def gen_random(rng, tr, nops):
-    g = Gen(rng, tr, rng.choice([8192, 8192, 13000, 20000, 16384 - 13]))
+    req_max = rng.choice([8192, 8192, 13000, 20000, 16384 - 13])
+    # one case in four: the server enforces its own buffer size (qb_ipcs_enforce_buffer_size), above or below the
+    # figure in the client's handshake, so that negotiated maximum != requested maximum
+    enforced = rng.choice([0, 0, 0, req_max + 1, 2 * req_max, 4096, 65536]) if rng.random() < 0.5 else 0
+    g = Gen(rng, tr, req_max, enforced)
     prof = rng.choice(["mixed", "mixed", "req", "evt", "fc", "full"])
     for _ in range(nops):
         r = rng.random()
@@ -184,6 +188,12 @@ def corpus():
     # sock: kernel refuses datagrams (EAGAIN) on each channel: nothing queued, counters untouched
     cs.append(["open sock 8192", "inj creq 2", "cs 20 1", "cv 20 2 2", "cs 20 3", "t", "inj sreq 1", "sr 20 4", "sr 20 5", "cr 100", "cr 100",
                "inj sevt 2", "se 20 6", "sw 20 7 2", "se 20 8", "ce 100", "ce 100", "close"])
+    # the server enforces a buffer size above the client's handshake figure (qb_ipcs_enforce_buffer_size): the negotiated
+    # maximum is the enforced one on every channel, messages between the two figures travel intact in both directions
+    for tr in ("shm", "sock"):
+        cs.append(["open %s 16384 65536" % tr, "cs 16385 1", "t", "cs 32768 2", "t", "cs 65536 3", "cs 65537 4", "t", "sr 65536 5", "cr 65536",
+                   "se 16385 6", "se 65536 7", "se 65537 8", "ce 65536", "ce 65536", "close"])
+        cs.append(["open %s 20000 4096" % tr, "cs 20000 1", "cs 20001 2", "t", "sr 20000 3", "cr 20000", "close"])
     return cs
 
 
@@ -294,7 +304,7 @@ def run(ctx):
         "by the script in places); partial writes of notification bytes are not modelled",
         "single thread, all timeouts 0: interleavings are at call granularity; the ring's own concurrency is C01's subject",
         "message payload is represented by a tag in the model; byte equality is checked by the harness and the monitor",
-        "the negotiated maximum is taken as max(requested, sizeof(struct qb_ipc_connection_response)) (no qb_ipcs_enforce_buffer_size)"]
+        "the negotiated maximum is taken as max(requested, sizeof(struct qb_ipc_connection_response)) (with and without qb_ipcs_enforce_buffer_size)"]
     return res
 
 
